@@ -38,21 +38,6 @@ theorem C01_value_iff (get : Corr → Val) (reg : List S) (lib : Library N S) (g
   have ht := C01_terms reg lib gs s e he
   rw [wsum_ok_iff, terms_allOk_iff lib s get gs _ ht, terms_specSum lib s get gs _ ht]
 
-/-- T1 with the constituents' values named by a function `h`. -/
-theorem estimate_sum (get : Corr → Val) (reg : List S) (lib : Library N S) (gs : List (N × Rat)) (s : S)
-    (e : Estimator) (he : estimate reg lib gs s = .ok e) (h : N → Rat)
-    (hv : ∀ g ∈ gs, ∃ c, corrOf lib s g.1 = some c ∧ get c = .ok (h g.1)) :
-    wsum get e.correlations = .ok ((gs.map fun g => g.2 * h g.1).sum) := by
-  rw [C01_value_iff get reg lib gs s e he]
-  refine ⟨fun g hg => ?_, ?_⟩
-  · obtain ⟨c, hc, hw⟩ := hv g hg; exact ⟨c, _, hc, hw⟩
-  · unfold specEstimate
-    congr 1
-    apply List.map_congr_left
-    intro g hg
-    obtain ⟨c, hc, hw⟩ := hv g hg
-    simp [valOf, hc, valD, hw]
-
 /-- **T1 for H/RT**: `get_HoRT(T)` of the estimate is `Σ n·h_d(T)`. -/
 theorem C01_sum_H (reg : List S) (lib : Library N S) (gs : List (N × Rat)) (s : S) (e : Estimator) (T : Rat)
     (he : estimate reg lib gs s = .ok e) (h : N → Rat)
@@ -224,13 +209,6 @@ theorem C01_perm_outcome (reg : List S) (lib : Library N S) {gs gs' : List (N ×
   constructor
   · rintro ⟨e, he⟩; obtain ⟨e', he', _⟩ := estimate_perm reg lib s e hp he; exact ⟨e', he'⟩
   · rintro ⟨e, he⟩; obtain ⟨e', he', _⟩ := estimate_perm reg lib s e hp.symm he; exact ⟨e', he'⟩
-
-/-- the terms of two successful estimates of reordered mappings are reorderings of each other -/
-theorem perm_terms (reg : List S) (lib : Library N S) {gs gs' : List (N × Rat)} (s : S) (e e' : Estimator)
-    (hp : gs.Perm gs') (he : estimate reg lib gs s = .ok e) (he' : estimate reg lib gs' s = .ok e') :
-    e'.correlations.Perm e.correlations ∧ e'.name = e.name ∧ e'.range = e.range := by
-  obtain ⟨e'', he'', h⟩ := estimate_perm reg lib s e hp he
-  rw [he'] at he''; cases he''; exact h
 
 /-- **T4 (order, Cp/R)** -/
 theorem C01_perm_Cp (reg : List S) (lib : Library N S) {gs gs' : List (N × Rat)} (s : S) (e e' : Estimator) (T v : Rat)
